@@ -161,6 +161,15 @@ def replay_cvm(ctx, metrics, c, k):
     except Exception as e:
         ctx.violation("ad:spurious-rejection", "%r for a sample inside [0, 1]" % e, case)
         return
+    # the textbook statistic A2 = -n - (1/n) sum (2i-1) [ln u_(i) + ln(1 - u_(n+1-i))]  (logarithms: evaluated by the harness in
+    # float64 with math.fsum, not by TLC; samples touching 0 or 1 have an infinite statistic and are left out)
+    srt = np.sort(s)
+    if len(srt) and srt[0] > 0 and srt[-1] < 1:
+        nn = len(srt)
+        a2 = -nn - math.fsum((2 * i - 1) * (math.log(srt[i - 1]) + math.log(1.0 - srt[nn - i])) for i in range(1, nn + 1)) / nn
+        if not abs(a1 - a2) <= 1e-9 * max(1.0, abs(a2)):
+            ctx.violation("ad:statistic", "statistic %r, textbook formula %r" % (a1, a2), case)
+            return
     if not np.array_equal(s, s0):
         ctx.violation("ad:argument-modified", "sample sorted in place", case)
     if not (0 <= p1 <= 1) or abs(a1 - a2) > 1e-12 * max(1, abs(a1)) or abs(p1 - p2) > 1e-12:
@@ -296,5 +305,5 @@ def run(ctx):
     ctx.exhaustive = True
     ctx.assumptions += ["qsort is stable on this platform (glibc 2.36 merge sort): the tie scanner of c_ensrank relies on it (EnsRank.tla, StableAssumption)",
                         "observations without ties (argsort ranks are order dependent under ties); exact member/observation ties excluded for random PIT",
-                        "the value of the Anderson-Darling statistic and of all p-values is not decided, only order independence, range and rejection",
+                        "the Anderson-Darling statistic is compared with the textbook formula evaluated by the harness in float64 (logarithms are outside TLC's integers); the values of the p-values are not decided, only their range and order independence",
                         "expected D computed with numpy.corrcoef from the exact ranks TLC prescribes"]
